@@ -12,7 +12,9 @@ import (
 	"flag"
 	"fmt"
 	"net"
+	"net/http"
 	"os"
+	"strings"
 	"sync"
 	"sync/atomic"
 	"time"
@@ -23,6 +25,7 @@ import (
 	"github.com/DrmagicE/gmqtt/persistence/subscription"
 	"github.com/DrmagicE/gmqtt/server"
 	_ "github.com/DrmagicE/gmqtt/topicalias/fifo"
+	"github.com/gorilla/websocket"
 
 	"verif/refmqtt"
 )
@@ -34,7 +37,54 @@ type cli struct {
 	mu  sync.Mutex
 }
 
+// wsConn adapts a websocket client connection to net.Conn (binary messages).
+type wsConn struct {
+	c   *websocket.Conn
+	rd  []byte
+	wmu sync.Mutex
+}
+
+func (w *wsConn) Read(p []byte) (int, error) {
+	for len(w.rd) == 0 {
+		_, b, err := w.c.ReadMessage()
+		if err != nil {
+			return 0, err
+		}
+		w.rd = b
+	}
+	n := copy(p, w.rd)
+	w.rd = w.rd[n:]
+	return n, nil
+}
+func (w *wsConn) Write(p []byte) (int, error) {
+	w.wmu.Lock()
+	defer w.wmu.Unlock()
+	if err := w.c.WriteMessage(websocket.BinaryMessage, p); err != nil {
+		return 0, err
+	}
+	return len(p), nil
+}
+func (w *wsConn) ping() {
+	w.wmu.Lock()
+	defer w.wmu.Unlock()
+	w.c.WriteMessage(websocket.PingMessage, []byte("p"))
+}
+func (w *wsConn) Close() error                       { return w.c.Close() }
+func (w *wsConn) LocalAddr() net.Addr                { return w.c.LocalAddr() }
+func (w *wsConn) RemoteAddr() net.Addr               { return w.c.RemoteAddr() }
+func (w *wsConn) SetDeadline(t time.Time) error      { w.c.SetReadDeadline(t); return w.c.SetWriteDeadline(t) }
+func (w *wsConn) SetReadDeadline(t time.Time) error  { return w.c.SetReadDeadline(t) }
+func (w *wsConn) SetWriteDeadline(t time.Time) error { return nil }
+
 func dial(addr string) *cli {
+	if strings.HasPrefix(addr, "ws://") {
+		d := websocket.Dialer{HandshakeTimeout: 2 * time.Second, Subprotocols: []string{"mqtt"}}
+		c, _, err := d.Dial(addr, nil)
+		if err != nil {
+			return nil
+		}
+		return &cli{c: &wsConn{c: c}, ver: refmqtt.V5}
+	}
 	c, err := net.DialTimeout("tcp", addr, 2*time.Second)
 	if err != nil {
 		return nil
@@ -152,9 +202,10 @@ func u32(v uint32) *uint32 { return &v }
 func u16(v uint16) *uint16 { return &v }
 
 type world struct {
-	srv  server.Server
-	addr string
-	done chan struct{}
+	srv    server.Server
+	addr   string
+	wsAddr string
+	done   chan struct{}
 }
 
 func newWorld() (*world, error) {
@@ -167,12 +218,27 @@ func newWorld() (*world, error) {
 	cfg.MQTT = config.DefaultMQTTConfig
 	cfg.MQTT.MaxInflight = 4
 	cfg.MQTT.MaxQueuedMsg = 8
-	srv := server.New(server.WithConfig(cfg), server.WithTCPListener(ln))
+	// a free port for the websocket listener (gmqtt calls ListenAndServe itself)
+	pl, err := net.Listen("tcp", "127.0.0.1:0")
+	if err != nil {
+		return nil, err
+	}
+	wsHost := pl.Addr().String()
+	pl.Close()
+	srv := server.New(server.WithConfig(cfg), server.WithTCPListener(ln), server.WithWebsocketServer(&server.WsServer{Server: &http.Server{Addr: wsHost}, Path: "/ws"}))
 	if err := srv.Init(); err != nil {
 		return nil, err
 	}
-	w := &world{srv: srv, addr: ln.Addr().String(), done: make(chan struct{})}
+	w := &world{srv: srv, addr: ln.Addr().String(), wsAddr: "ws://" + wsHost + "/ws", done: make(chan struct{})}
 	go func() { srv.Run(); close(w.done) }()
+	// wait for the websocket listener
+	for i := 0; i < 200; i++ {
+		if c, err := net.DialTimeout("tcp", wsHost, 100*time.Millisecond); err == nil {
+			c.Close()
+			break
+		}
+		time.Sleep(2 * time.Millisecond)
+	}
 	return w, nil
 }
 
@@ -267,6 +333,46 @@ func scenario(round int, stopEarly bool) (delivered int64, stopped bool) {
 			c.c.Close()
 		}()
 	}
+	// websocket clients: a subscriber that also sends websocket PING frames, and a
+	// take-over storm on one client id (the displaced v5 connection is sent a DISCONNECT)
+	wg.Add(1)
+	go func() {
+		defer wg.Done()
+		s := connect(w.wsAddr, "w0", false, true)
+		if s == nil {
+			return
+		}
+		s.send(&refmqtt.Packet{Type: refmqtt.SUBSCRIBE, PacketID: 1, Subs: []refmqtt.Sub{{Filter: "t/#", QoS: 1}}})
+		go func() {
+			for k := 0; k < 20; k++ {
+				select {
+				case <-quit:
+					return
+				default:
+				}
+				if wc, ok := s.c.(*wsConn); ok {
+					wc.ping()
+				}
+				time.Sleep(time.Millisecond)
+			}
+		}()
+		s.ackLoop(quit, &got)
+		s.c.Close()
+	}()
+	for i := 0; i < 3; i++ {
+		i := i
+		wg.Add(1)
+		go func() {
+			defer wg.Done()
+			c := connect(w.wsAddr, "wdup", false, false)
+			if c == nil {
+				return
+			}
+			c.send(&refmqtt.Packet{Type: refmqtt.SUBSCRIBE, PacketID: 1, Subs: []refmqtt.Sub{{Filter: "t/2", QoS: byte(i % 2)}}})
+			c.ackLoop(quit, new(int64))
+			c.c.Close()
+		}()
+	}
 	// administrative calls
 	wg.Add(1)
 	go func() {
@@ -292,6 +398,9 @@ func scenario(round int, stopEarly bool) (delivered int64, stopped bool) {
 			w.srv.RetainedService().GetMatchedMessages("t/#")
 			if k == 15 {
 				w.srv.ClientService().TerminateSession("dup")
+			}
+			if k == 20 {
+				w.srv.ClientService().TerminateSession("w0")
 			}
 			time.Sleep(200 * time.Microsecond)
 		}
